@@ -13,9 +13,9 @@ for spec in "$@"; do echo "$spec" >> $LIST; done
 unshare -m bash -c "
   mount --bind $S/repo /repo && mount --bind $S/verif /verif || exit 2
   cd /verif
-  while read wt letter id prop; do
+  while IFS='|' read wt letter id prop flags tc; do
     echo \"=== \$id (\$prop) from \$wt/mutant_\$letter.diff\"
-    python3 /verif/tools/seed.py \$wt \$letter \$id \$prop $TIER 2>&1 | grep -v '^\$'
+    python3 /verif/tools/seed.py \$wt \$letter \$id \$prop $TIER --demo-flags \"\$flags\" --demo-toolchain \"\$tc\" 2>&1 | grep -v '^\$'
   done < $LIST
 " > $S/log.txt 2>&1
 mkdir -p /verif/seeded
